@@ -1,6 +1,9 @@
 package router
 
-import "github.com/gammazero/nexus/v3/wamp"
+import (
+	"github.com/gammazero/nexus/v3/transport"
+	"github.com/gammazero/nexus/v3/wamp"
+)
 
 // C04 layer 1: a hostile session sends one message whose option / detail /
 // argument values have arbitrary dynamic types; the router must not panic and
@@ -288,4 +291,148 @@ func Harness_C04_HandlerStall() {
 		vBystanderServed(r, other)
 	}
 	vCover("handler-stall-done")
+}
+
+// meta procedures called with arguments of any shape and type: each call is
+// answered exactly once (RESULT or ERROR), nothing panics, the others are served
+func Harness_C04_HostileMetaArgs() {
+	rc := &RealmConfig{URI: "realm1", AnonymousAuth: true, EnableMetaKill: true, EnableMetaModify: true,
+		TopicEventHistoryConfigs: []*TopicEventHistoryConfig{{Topic: "h.t", MatchPolicy: wamp.MatchExact, Limit: 2}}}
+	r := vNewRouter(&Config{RealmConfigs: []*RealmConfig{rc}})
+	a := vAttach(r, "realm1", nil, 32)
+	b := vAttach(r, "realm1", nil, 32)
+	vAssert("attached", a != nil && b != nil)
+	if a == nil || b == nil {
+		return
+	}
+	b.send(&wamp.Register{Request: 1, Procedure: "b.proc"})
+	b.send(&wamp.Subscribe{Request: 2, Topic: "b.topic"})
+	b.send(&wamp.Publish{Request: 3, Topic: "h.t", Arguments: wamp.List{1}})
+	b.drain()
+	procs := []wamp.URI{
+		wamp.MetaProcSessionCount, wamp.MetaProcSessionList, wamp.MetaProcSessionGet, wamp.MetaProcSessionKill,
+		wamp.MetaProcSessionKillByAuthid, wamp.MetaProcSessionKillByAuthrole, wamp.MetaProcSessionKillAll, wamp.MetaProcSessionModifyDetails,
+		wamp.MetaProcRegList, wamp.MetaProcRegLookup, wamp.MetaProcRegMatch, wamp.MetaProcRegGet, wamp.MetaProcRegListCallees, wamp.MetaProcRegCountCallees,
+		wamp.MetaProcSubList, wamp.MetaProcSubLookup, wamp.MetaProcSubMatch, wamp.MetaProcSubGet, wamp.MetaProcSubListSubscribers, wamp.MetaProcSubCountSubscribers,
+		wamp.MetaProcEventHistory, wamp.MetaProcSessionAddTestament, wamp.MetaProcSessionFlushTestaments,
+	}
+	proc := procs[vChoice("meta-procedure", len(procs))]
+	var args wamp.List
+	var kw wamp.Dict
+	switch vChoice("shape", 5) {
+	case 0: // nothing at all
+	case 1:
+		args = wamp.List{vAny("arg0")}
+	case 2: // a plausible first argument, anything as the second and third
+		args = wamp.List{"b.topic", vAny("arg1"), vAny("arg2")}
+	case 3: // an id, anything after it
+		args = wamp.List{b.id, vAny("arg1")}
+	case 4:
+		// (limit: its numeric encodings are the business of Harness_C20_Query)
+		keys := []string{"reason", "message", "scope", "publish_options", "reverse", "from_time", "topic", "from_publication", "match"}
+		kw = wamp.Dict{keys[vChoice("kwarg", len(keys))]: vAny("kwval")}
+		args = wamp.List{wamp.ID(1)}
+	}
+	a.send(&wamp.Call{Request: 50, Procedure: proc, Arguments: args, ArgumentsKw: kw})
+	n := 0
+	for _, m := range a.drain() {
+		switch mm := m.(type) {
+		case *wamp.Result:
+			if mm.Request == 50 {
+				n++
+			}
+		case *wamp.Error:
+			if mm.Request == 50 && mm.Type == wamp.CALL {
+				n++
+			}
+		}
+	}
+	vAssert("meta-call-answered-exactly-once", n == 1)
+	// b may have been killed on request; whoever is left is served
+	probe := a
+	if _, ok := r.realms["realm1"].clients[b.id]; ok {
+		probe = b
+	}
+	vBystanderServed(r, probe)
+	r.Close()
+	vCover("hostile-meta-args-done")
+}
+
+// a HELLO whose details carry values of any type where roles, features,
+// authmethods and identity are expected; whether or not the router welcomes
+// it, nothing panics, a welcomed session can use the router, others are served
+func Harness_C04_HostileHello() {
+	r := vNewRouter(&Config{RealmConfigs: []*RealmConfig{{URI: "realm1", AnonymousAuth: true, AllowDisclose: true}}})
+	b := vAttach(r, "realm1", nil, 32)
+	vAssert("attached", b != nil)
+	if b == nil {
+		return
+	}
+	b.send(&wamp.Register{Request: 1, Procedure: "b.proc"})
+	b.send(&wamp.Subscribe{Request: 2, Topic: "b.topic"})
+	b.drain()
+	det := wamp.Dict{"roles": vAllRoles}
+	switch vChoice("hostile-position", 8) {
+	case 0:
+		det["roles"] = vAny("roles")
+	case 1:
+		det["roles"] = wamp.Dict{"callee": vAny("role"), "caller": wamp.Dict{}}
+	case 2:
+		f := vAny("features")
+		det["roles"] = wamp.Dict{"callee": wamp.Dict{"features": f}, "subscriber": wamp.Dict{"features": f}}
+	case 3:
+		f := vAny("flag")
+		det["roles"] = wamp.Dict{"callee": wamp.Dict{"features": wamp.Dict{"call_canceling": f, "progressive_call_results": f}},
+			"caller": wamp.Dict{"features": wamp.Dict{"call_canceling": f}}, "subscriber": wamp.Dict{"features": wamp.Dict{"publisher_identification": f}}}
+	case 4:
+		det["authmethods"] = vAny("authmethods")
+	case 5:
+		v := vAny("identity")
+		det["authid"] = v
+		det["authrole"] = v
+	case 6:
+		det["transport"] = vAny("transport")
+	case 7:
+		v := vAny("extra")
+		det["authextra"] = v
+		det["session"] = v
+	}
+	local := vBool("in-process-peer")
+	c, rp := transport.LinkedPeersQSize(16)
+	var peer wamp.Peer = rp
+	if !local {
+		peer = &vRemoteWrap{rp}
+	}
+	go func() { c.Send() <- &wamp.Hello{Realm: "realm1", Details: det} }()
+	err := r.AttachClient(peer, nil)
+	if err == nil {
+		w, ok := (<-c.Recv()).(*wamp.Welcome)
+		vAssert("welcome-after-successful-attach", ok)
+		if ok {
+			a := &vClient{peer: c, id: w.ID}
+			// it uses the router: as callee, caller, subscriber, publisher
+			a.send(&wamp.Register{Request: 10, Procedure: "a.proc"})
+			a.send(&wamp.Subscribe{Request: 11, Topic: "b.topic"})
+			a.drain()
+			b.send(&wamp.Call{Request: 20, Procedure: "a.proc", Options: wamp.Dict{"receive_progress": true, "disclose_me": true, "timeout": int64(1000)}})
+			b.send(&wamp.Publish{Request: 21, Topic: "b.topic", Options: wamp.Dict{"disclose_me": true}})
+			for _, m := range a.drain() {
+				if inv, ok := m.(*wamp.Invocation); ok {
+					a.send(&wamp.Yield{Request: inv.Request, Options: wamp.Dict{"progress": true}})
+					a.send(&wamp.Yield{Request: inv.Request})
+				}
+			}
+			a.send(&wamp.Call{Request: 12, Procedure: "b.proc", Options: wamp.Dict{"receive_progress": true}})
+			a.send(&wamp.Cancel{Request: 12, Options: wamp.Dict{"mode": "kill"}})
+			a.drain()
+			b.send(&wamp.Call{Request: 22, Procedure: wamp.MetaProcSessionGet, Arguments: wamp.List{a.id}})
+			b.send(&wamp.Call{Request: 23, Procedure: wamp.MetaProcSessionList})
+			b.drain()
+			vCover("welcomed")
+		}
+	} else {
+		vCover("refused")
+	}
+	vBystanderServed(r, b)
+	r.Close()
 }
